@@ -56,10 +56,18 @@ func (w *c11world) abs(v interface{}) string {
 	return fmt.Sprintf("?%v", v)
 }
 
+// docMap is a defined type with the underlying type of the untyped store's values: still not that type.
+type docMap map[string]interface{}
+
 func (w *c11world) conc(v string) interface{} {
 	switch v {
 	case "WRONG":
 		return "a string is the wrong type"
+	case "WRONG2":
+		if w.cfg.typed {
+			return &tval{V: "w2"} // a pointer to the store's type
+		}
+		return docMap{"v": "w2"}
 	case "NIL":
 		return nil
 	}
@@ -144,8 +152,8 @@ func errClass(err error) string {
 func (w *c11world) call(txn store.ReadTxn, op, id, v string) rec {
 	r := rec{"op": op, "id": id, "v": v, "res": "ok", "val": "NONE", "gen": ""}
 	w.lastGen = ""
-	if v == "NIL" || v == "WRONG" {
-		r["v"] = "WRONG" // both are values of the wrong type
+	if v == "NIL" || v == "WRONG" || v == "WRONG2" {
+		r["v"] = "WRONG" // all are values of the wrong type
 	}
 	pv := core.Catch(func() {
 		switch op {
@@ -207,11 +215,11 @@ func seqHistory(cfg c11cfg, rng *rand.Rand, n int) (rec, error) {
 			op := []string{"create", "update", "delete", "value", "exists", "create", "update"}[rng.Intn(7)]
 			v := ""
 			if op == "create" || op == "update" {
-				v = []string{"v1", "v2", "v3", "v1", "WRONG", "NIL", "VETO"}[rng.Intn(7)]
+				v = []string{"v1", "v2", "v3", "v1", "WRONG", "NIL", "VETO", "WRONG2"}[rng.Intn(8)]
 				if v == "VETO" && !cfg.veto {
 					v = "v2"
 				}
-				if (v == "WRONG" || v == "NIL") && cfg.backend == "mock" {
+				if (v == "WRONG" || v == "NIL" || v == "WRONG2") && cfg.backend == "mock" {
 					v = "v3" // the mock store is untyped: it has no wrong type
 				}
 			}
